@@ -299,3 +299,27 @@ func zzH_C15_exp_low() {
 	zzverif.Assert(uint8(res.Uint64()) == r, "EXP agrees with base^exponent modulo 2^8")
 	zzverif.Reach("end")
 }
+
+// zzH_C15_exp_gas: EXP is charged 10 + 50 per significant byte of the EXPONENT (EIP-160), for
+// every base and exponent; the charge comes from the jump table's own gas functions.
+//
+//verif:mode int
+func zzH_C15_exp_gas() {
+	base, exp := zzverif.Big("base", 256), zzverif.Big("exponent", 256)
+	st := newstack()
+	st.push(new(big.Int).Set(exp))
+	st.push(new(big.Int).Set(base)) // EXP pops the base first
+	op := istanbulInstructionSet[EXP]
+	zzverif.Assert(op.dynamicGas != nil, "EXP has a dynamic gas component")
+	dyn, err := op.dynamicGas(nil, nil, st, nil, 0)
+	zzverif.Assert(err == nil, "the EXP gas computation does not fail")
+	// significant bytes of the exponent, by comparison against powers of 256
+	n := uint64(0)
+	for k := 1; k <= 32; k++ {
+		if exp.Cmp(new(big.Int).Lsh(big.NewInt(1), uint(8*(k-1)))) >= 0 {
+			n = uint64(k)
+		}
+	}
+	zzverif.Assert(op.constantGas+dyn == 10+50*n, "EXP costs 10 + 50 per significant exponent byte")
+	zzverif.Reach("end")
+}
